@@ -218,12 +218,13 @@ pub fn apply_both<T: Back>(c: &mut GC<T>, m: &mut Model, a: Act, pos: usize) -> 
 
 /// Exact fingerprint of the implementation state, through the public API only: per level the
 /// `iter_all()` segment (which keys the group log of that level holds, with their values) and the
-/// visible value of each key once the inner groups have been ended. One byte per level.
+/// visible value of each key once the inner groups have been ended (one byte per level, at most 15
+/// levels), plus the physical size of the backing store in the last byte.
 pub type Fp = [u8; 16];
 
-fn fingerprint(segs: &[Vec<(usize, u8)>], dr: &Drain) -> Result<Fp, Mismatch> {
+fn fingerprint(segs: &[Vec<(usize, u8)>], dr: &Drain, raw_len: usize) -> Result<Fp, Mismatch> {
     let n = segs.len();
-    if n > 16 || dr.levels.len() != n {
+    if n > 15 || dr.levels.len() != n {
         return Err(mismatch(format!("{n} levels in iter_all and in the drain"), format!("{} drained levels", dr.levels.len()), "number of BeginGroup items differs from the number of groups that can be ended"));
     }
     let mut fp = [0u8; 16];
@@ -245,12 +246,15 @@ fn fingerprint(segs: &[Vec<(usize, u8)>], dr: &Drain) -> Result<Fp, Mismatch> {
         }
         fp[i] = code + 1;
     }
+    // physical size of the backing store (a Vec keeps empty slots of rolled-back keys; `==` sees them)
+    fp[15] = raw_len.min(254) as u8 + 1;
     Ok(fp)
 }
 
 pub fn init_fp() -> Fp {
     let mut fp = [0u8; 16];
     fp[0] = 1;
+    fp[15] = 1;
     fp
 }
 
@@ -315,11 +319,12 @@ pub fn check_history<T: Back>(h: &[u8], acc: &mut Acc) -> Result<Fp, Mismatch> {
     if dr != want_drain {
         return Err(mismatch(format!("{want_drain:?}"), format!("{dr:?}"), format!("{}: replay law: ending the groups of the rebuilt container shows different values", T::NAME)));
     }
+    let raw_len = c.backing_container().raw_len();
     let dc = drain(c);
     if dc != want_drain {
         return Err(mismatch(format!("{want_drain:?}"), format!("{dc:?}"), format!("{}: ending all groups (and one more) shows different values", T::NAME)));
     }
-    fingerprint(&segs, &dc)
+    fingerprint(&segs, &dc, raw_len)
 }
 
 /// Replay law, second half, at the state reached by `h`: a container rebuilt from `iter_all()`
